@@ -533,13 +533,12 @@ class SqlImpl(TableImpl):
             right_select = right_query.select
             right_col_names = [right_sqa_expr[uid].name for uid in right_select]
 
+            from pydiverse.transform._internal.pipe.cache import Cache
+
+            right_cache = Cache.from_ast(nd.right)
+
             # If column order doesn't match, wrap right AST with a Select to reorder
             if left_col_names != right_col_names:
-                # Get right cache to access Col objects for reordering
-                from pydiverse.transform._internal.pipe.cache import Cache
-
-                right_cache = Cache.from_ast(nd.right)
-
                 # Get Col objects from right cache in the order of left columns
                 reordered_cols = []
                 for name in left_col_names:
@@ -552,6 +551,21 @@ class SqlImpl(TableImpl):
                 # Wrap right AST with Select to reorder columns and recompile
                 right_ast = verbs.Select(nd.right, reordered_cols)
                 right_table, right_query, right_sqa_expr = cls.compile_ast(right_ast, needed_cols)
+
+            # Operand columns of different but compatible types are cast to their
+            # common type (not every dialect does this on its own).
+            left_cache = Cache.from_ast(nd.child)
+            for uid in left_select:
+                name = sqa_expr[uid].name
+                left_col = left_cache.cols[uid]
+                right_col = right_cache.cols[right_cache.name_to_uuid[name]]
+                common = types.lca_type([left_col.dtype(), right_col.dtype()])
+                if types.without_const(left_col.dtype()) not in (common, NullType()):
+                    sqa_expr[uid] = sqa.label(name, cls.compile_cast(Cast(left_col, common), sqa_expr))
+                if types.without_const(right_col.dtype()) not in (common, NullType()):
+                    right_sqa_expr[right_col._uuid] = sqa.label(
+                        name, cls.compile_cast(Cast(right_col, common), right_sqa_expr)
+                    )
 
             # The row order of a union is unspecified, and an ORDER BY in an operand
             # of a compound select is a syntax error on some dialects.
